@@ -38,6 +38,9 @@ class Quant:
     def exists(self, body):
         if not self.vars:
             return z3.And(self.guard_term(), body)
+        if len(self.vars) == 1 and len(self.guard) == 1 and z3.is_true(body) and len(self.views) == 1:
+            # `exists q. 0 <= q < n`  is  `n > 0` (no quantifier for the solver to instantiate)
+            return self.views[0].n > 0
         return z3.Exists(self.vars, z3.And(self.guard_term(), body))
 
 
@@ -663,7 +666,19 @@ def b_print(eng, e, st):
     return [(st, VNONE)]
 
 
+def b_perf_counter(eng, e, st):
+    """[TRUSTED] time.perf_counter(): a monotone clock -- each reading is >= the previous one.
+    Modelled in scaled integer ticks (the comparison elapsed >= 0 is all that is used)."""
+    t = fresh("clock")
+    last = st.aux.get("clock")
+    if last is not None:
+        st.assume(t >= last)
+    st.aux["clock"] = t
+    return [(st, vint(t))]
+
+
 BUILTINS = {
+    "time.perf_counter": b_perf_counter,
     "len": b_len,
     "range": b_range,
     "enumerate": b_enumerate,
